@@ -55,12 +55,15 @@ func (g *fgen) call(in ssa.CallInstruction, st *state) []val {
 	defer func() { g.ginvExempt = nil }()
 	g.assertGinvs(st, "ginv-call", g.siteLabel(in.Pos(), "call"), in.Pos())
 	var before *state
-	if len(g.stackLocals) > 0 {
+	if len(g.stackLocals) > 0 || len(g.localArrays) > 0 {
 		before = st.clone()
 	}
 	rs := g.callInner(in, st)
 	g.lockInterference(in, st)
-	if before != nil {
+	if before != nil && len(g.localArrays) > 0 {
+		g.restoreLocalArrays(in, before, st)
+	}
+	if before != nil && len(g.stackLocals) > 0 {
 		isClosure := false
 		c := in.Common()
 		if !c.IsInvoke() {
